@@ -63,4 +63,14 @@ func init() {
 		Assumptions: []string{"G mode: a-b exact on the grid; |a-b| and |b-a| are the same term (bit-exact IEEE identity)"},
 		Outside:     []string{"arbitrary doubles (the FP64 subtraction is exact only on the grid)", "larger member counts"},
 	})
+	reg(&Property{
+		ID: "C17", Pkgs: []string{"encoding/wkt"}, Level: "model_checking",
+		Rule: "one evaluation = one explored path (a geometry shape) with all coordinates free finite doubles; the produced text is parsed by an independent OGC WKT recogniser written in the harness; non-trivial = path ends with all assertions discharged",
+		Bounds: map[string]string{
+			"coordinates": "all finite float64 bit patterns",
+			"shapes":      "1..3 members x 1..2(3) rings x 1..3(4) vertices",
+		},
+		Assumptions: []string{"strconv.AppendFloat(_, f, 'g', -1, 64) emits one token of [0-9+-.eE] characters that strconv.ParseFloat maps back to exactly f (strconv's shortest round-trip contract; executed for real in the native trace-conformance runs)"},
+		Outside:     []string{"the digits themselves", "member counts above the bound"},
+	})
 }
